@@ -1,13 +1,17 @@
 #!/bin/bash
-# usage: run_all.sh [quick|thorough] [seed]   -- run every registered check sequentially, one summary line each
-TIER=${1:-quick}; SEED=${2:-0}
-cd /verif
+# usage: run_all.sh [quick|thorough] [seed] [ids...]  -- run every registered check sequentially, one summary line each
+# (runs from the directory that holds this copy of the tools, so that it also works in a `vp run` snapshot)
+TIER=${1:-quick}; SEED=${2:-0}; shift 2 2>/dev/null
+IDS=${@:-01 02 03 04 05 06 07 08 09 10 11 12 13 14 15 16 17 18 19 20}
+cd "$(dirname "$0")/.." || exit 2
+OUT=$(mktemp -d /tmp/runall.XXXXXX)
 rc_all=0
-for i in 01 02 03 04 05 06 07 08 09 10 11 12 13 14 15 16 17 18 19 20; do
+for i in $IDS; do
   s=$(date +%s)
-  VERIF_SEED=$SEED ./vf check C$i --tier $TIER > /tmp/runall.$i.out 2>&1; rc=$?
+  VERIF_SEED=$SEED ./vf check C$i --tier $TIER > $OUT/$i.out 2>&1; rc=$?
   e=$(date +%s)
-  echo "C$i rc=$rc $((e-s))s viol=$(grep -c '^VIOLATION' /tmp/runall.$i.out) known=$(grep -c '^KNOWN-FINDING' /tmp/runall.$i.out) | $(tail -1 /tmp/runall.$i.out | cut -c1-140)"
-  [ $rc -ne 0 ] && rc_all=1
+  echo "C$i rc=$rc $((e-s))s viol=$(grep -c '^VIOLATION' $OUT/$i.out) known=$(grep -c '^KNOWN-FINDING' $OUT/$i.out) | $(tail -1 $OUT/$i.out | cut -c1-140)"
+  [ $rc -ne 0 ] && { rc_all=1; grep -A2 '^VIOLATION\|HARNESS-ERROR' $OUT/$i.out | head -20; }
 done
+rm -rf $OUT
 exit $rc_all
